@@ -97,8 +97,8 @@ def episode(draw, index):
         payloads.append({"id": base + 500, "flavour": "threading", "role": "shutter", "reg": {"how": "outside"}, "program": [["shutdown"]], "end": ["return", "None"]})
         early.append({"at_ms": at + shift, "op": "adopt", "pid": base + 500})
     if end == "kbint-payload":
-        # the interrupt is raised by a payload itself (a thread payload; or an asyncio payload, which makes asyncio tear the loop
-        # down on its own - with cancellation-absorbing payloads around that never ends on the unchanged tree, DESIGN.md section 11)
+        # the interrupt is raised by a payload itself (a thread payload; or an asyncio payload, which makes asyncio abort the loop
+        # on its own - not generated together with cancellation-absorbing payloads, DESIGN.md section 11)
         flv = "threading" if population == "stubborn" else draw(st.sampled_from(["threading", "asyncio"]))
         payloads.append({"id": base + 1, "flavour": flv, "role": "failing", "kind": "kbint", "reg": {"how": "pre"},
                          "program": [["sleep", at + shift]], "end": ["raise", "KeyboardInterrupt"]})
